@@ -418,6 +418,68 @@ func runC05(c *eng.Ctx) {
 		c.Undecided("ORDER-delete-return", "discovery", token.NoPos, "no size-returning function that marks entries deleted found in needle_map")
 	}
 
+	// ---------------------------------------------------------------- (2c) the replay reads whole entries
+	// Every replay of an index file goes through idx.WalkIndexFile, which reads the file in batches and moves its file
+	// position by the bytes read: the batch must hold a whole number of entries (in both offset-width builds), and the
+	// loop must step and slice by the entry size.
+	if fn := c.NeedFunc("weed/storage/idx", "WalkIndexFile"); fn != nil {
+		entry, okE := namedConst(P, "weed/storage/types", "NeedleMapEntrySize")
+		n := 0
+		for _, in := range eng.Find(fn, eng.PlainCallTo("io.ReaderAt).ReadAt")) {
+			k := eng.BufLenOf(eng.Arg(in.(ssa.CallInstruction), 0))
+			n++
+			c.Ob("STRIDE-walk", fmt.Sprintf("%s batch-buffer#%d", eng.FuncName(fn), n), okE && entry > 0 && k > 0 && k%entry == 0, in.Pos(),
+				fmt.Sprintf("the batch buffer (%d bytes) holds a whole number of index entries (%d bytes each in this build): a partial entry at the end of a batch would be skipped and every later entry decoded out of phase", k, entry))
+		}
+		if n == 0 {
+			c.Undecided("STRIDE-walk", eng.FuncName(fn)+" batch-buffer", fn.Pos(), "batch buffer allocation not found")
+		}
+		for _, in := range eng.Find(fn, func(in ssa.Instruction) bool { b, ok := in.(*ssa.BinOp); return ok && b.Op == token.ADD }) {
+			b := in.(*ssa.BinOp)
+			if _, isPhi := b.X.(*ssa.Phi); !isPhi {
+				continue
+			}
+			k, isK := eng.ConstInt(b.Y)
+			if !isK {
+				continue
+			}
+			n++
+			c.Ob("STRIDE-walk", fmt.Sprintf("%s step#%d", eng.FuncName(fn), n), okE && k == entry, in.Pos(), "positions inside a batch advance by the entry size")
+		}
+		c.Expect("STRIDE-walk", 5)
+	}
+
+	// ---------------------------------------------------------------- (2d) byte total rebuilt from the index file
+	// While a volume runs every put adds its size to FileByteCounter (logPut -> LogFileCounter, whatever was there before);
+	// the rebuild used by the LevelDB and sorted-file maps must therefore add the size of every entry with a valid size,
+	// first occurrence of the key or not.
+	if outer := c.NeedFunc("weed/storage", "newNeedleMapMetricFromIndexFile"); outer != nil {
+		fbc := func(in ssa.Instruction) bool {
+			if st, ok := in.(*ssa.Store); ok && eng.IsField(st.Addr, "mapMetric.FileByteCounter") {
+				return true
+			}
+			if call, ok := in.(*ssa.Call); ok && eng.CalleeIs(call, "atomic.AddUint64") && eng.IsField(eng.Arg(call, 0), "mapMetric.FileByteCounter") {
+				return true
+			}
+			return false
+		}
+		visit := closureWith(outer, fbc)
+		if visit == nil {
+			c.Undecided("ABS-counters", "index-file rebuild: byte total", outer.Pos(), "no update of FileByteCounter found in the rebuild from the index file")
+		} else {
+			c.Touch(visit)
+			valid := eng.BoolCall(true, "types.Size).IsValid")
+			hit, path := eng.Search(eng.Entry(visit), eng.IsReturn, eng.SearchOpt{Barrier: fbc, Cut: eng.FailEdges(visit, valid)})
+			c.Ob("ABS-counters", "index-file rebuild: every valid entry adds its size to the byte total", hit == nil && len(eng.PassEdges(visit, valid)) > 0, visit.Pos(),
+				"rebuilding the counters from the index file adds the size of every entry with a valid size to FileByteCounter, as every put did while the volume ran"+func() string {
+					if hit != nil {
+						return "; path without the update: " + eng.DescribePath(P, visit, path)
+					}
+					return ""
+				}())
+		}
+	}
+
 	// ---------------------------------------------------------------- (3) ABS-counters
 	put := c.NeedFunc("weed/storage", "(*NeedleMap).Put")
 	del := c.NeedFunc("weed/storage", "(*NeedleMap).Delete")
